@@ -37,7 +37,7 @@ SERVERS = [("10.0.14.2", 30490), ("2001:db8::e2", 30490, 0, 0), ("10.0.14.3", 30
            ("fe80::e4", 30490, 0, 2), ("fe80::e4", 30490, 0, 3), ("10.0.14.2", 30491)]
 # eventgroups: (sid, iid, maj, egid, sockname, proto)
 EGS = [(0x9001, 1, 1, 1, ("10.0.14.1", 5001), 17), (0x9001, 1, 1, 2, ("10.0.14.1", 5002), 6),
-       (0x9002, 3, 2, 1, ("2001:db8::e1", 5003, 0, 0), 17), (0x9003, 0x10, 1, 0x20, ("2001:db8::e1", 5004, 0, 0), 6),
+       (0x9002, 3, 2, 1, ("2001:db8::e1", 5003, 0, 0), 17), (0x9003, 0x10, 1, 0x20, ("2001:db8::e1", 5004), 6),
        # "one port for UDP and TCP": the same local address and port as another eventgroup, other transport protocol
        (0x9001, 1, 1, 3, ("10.0.14.1", 5001), 6), (0x9002, 3, 2, 2, ("2001:db8::e1", 5003, 0, 0), 6)]
 CONFIGS = [dict(ttl=5, refresh=3.0), dict(ttl=FOREVER, refresh=None), dict(ttl=2, refresh=1.0)]
